@@ -560,6 +560,7 @@ def node_variants(g, x):
         pos = r.randrange(len(ents) + 1)
         out += [("map-unknown-text-key", M(ents[:pos] + [(T(r.choice(["zzz", "", "Type", "ID"])), junk_value(g, floats=False))] + ents[pos:])),
                 ("map-int-key", M(ents + [(I(r.choice([0, 1, 5])), I(0))])), ("map-as-array", A([])), ("map-tagged", G(6, x)),
+                ("map-key-%d" % (4096 + pos % 2), M(ents + [(T("k" * (4096 + pos % 2)), I(0))])),     # ciborium's scratch buffer
                 ("map-indefinite", RAW(b"\xbf" + b"".join(enc(a) + enc(b) for a, b in ents) + b"\xff"))]
         if tk:
             i = r.choice(tk)
@@ -817,7 +818,11 @@ def model_view(term):
 
 
 def replay(payload):
+    c = payload.get("case")
+    if not c:
+        print("no concrete input in this replay file; broken tie: %s" % payload.get("broken"))
+        print((payload.get("detail") or "")[-2000:])
+        return 0
     binary = common.harness_build("ctapmsg")
-    c = payload["case"]
     print(json.dumps(common.harness_one(binary, {k: v for k, v in c.items() if k in ("op", "t", "m", "hex", "b")}))[:3000])
     return 0
